@@ -759,6 +759,29 @@ Ltac bind_inv H :=
   apply bindM_ok_inv in H; destruct H as (o1 & a & o2 & Hm & H & Ho).
 
 (* ---------- the construct equations (all by computation) ---------- *)
+Lemma eval_indices_nil : forall n s, eval_indices P eps n [] s = OkM ([], s).
+Proof. reflexivity. Qed.
+
+Lemma eval_indices_cons : forall n e r s,
+  eval_indices P eps n (e :: r) s =
+  bindM (eval P eps n e s) (fun '(iv, s1) =>
+  bindM (lift (index_value iv)) (fun i =>
+  bindM (eval_indices P eps n r s1) (fun '(is, s2) => OkM (i :: is, s2)))).
+Proof. reflexivity. Qed.
+
+Lemma evals_nil : forall n s, evals P eps n [] s = OkM ([], s).
+Proof. reflexivity. Qed.
+
+Lemma evals_cons : forall n e r s,
+  evals P eps n (e :: r) s =
+  bindM (eval P eps n e s) (fun '(v, s1) =>
+  bindM (evals P eps n r s1) (fun '(vs, s2) => OkM (v :: vs, s2))).
+Proof. reflexivity. Qed.
+
+Lemma mutate_with_recv : forall n o op s,
+  mutate_with (eval P eps n) o op s = mutate_recv P eps n o op s.
+Proof. intros. destruct o; reflexivity. Qed.
+
 Lemma exec_setidx_S : forall n sid t e s,
   exec P eps (S n) (SSetIdx sid t e) s =
   bindM (eval P eps n e s) (fun '(v, s1) =>
@@ -826,7 +849,7 @@ Lemma eval_call_S : forall n fname l args target s,
                  | None => false end) then PanicM PParamRange
         else
           bindM (exec_block P eps n (f_body fd)
-                   (push_scope (param_slots fd (f_params fd) vs 0 []) s1))
+                   (push_scope (bind_params (f_id fd) (f_lstart fd) (f_params fd) vs 0 []) s1))
                 (fun '(fl, s3) =>
                    match fl with
                    | FNormal => OkM (VNull, pop_scope s3)
@@ -840,7 +863,8 @@ Proof. intros n fname l args target s Hg. cbn [eval]. rewrite Hg. reflexivity. Q
 Lemma eval_indices_nonneg : forall n idx s o path s',
   eval_indices P eps n idx s = (o, Ok (path, s')) -> nonneg path.
 Proof.
-  induction idx as [|e idx IH]; intros s o path s' H; cbn [eval_indices] in H.
+  induction idx as [|e idx IH]; intros s o path s' H;
+    [rewrite eval_indices_nil in H|rewrite eval_indices_cons in H].
   - inversion H. constructor.
   - bind_inv H. destruct a as [iv s1]. bind_inv H. bind_inv H. destruct a0 as [is s2].
     inversion H; subst. apply nonneg_cons. split.
@@ -929,7 +953,7 @@ Proof.
   intros n o op s out r s' H. destruct o; try discriminate H.
   - (* EVar *) cbn [mutate_recv] in H. apply store_mut_ok_inv in H.
     destruct H as (-> & root & root' & Hst & Hmp).
-    exists n0, l, [], [], s, root, root'. cbn [eval_indices].
+    exists n0, l, [], [], s, root, root'. rewrite eval_indices_nil.
     refine (conj eq_refl (conj eq_refl (conj _ (conj Hst Hmp)))). constructor.
   - (* EIdx *) cbn [mutate_recv] in H.
     destruct (flatten_target (EIdx o1 o2) []) as [[[vn vl] idx]|] eqn:Hft; [|discriminate H].
@@ -974,3 +998,341 @@ Proof.
     refine (conj _ (conj Hft (conj Hei (conj Hnn (conj eq_refl (conj Hst Hmp)))))).
     right. right. auto.
 Qed.
+
+(* ---------- call-free expressions leave the state alone ---------- *)
+Ltac pure_step IH :=
+  match goal with
+  | H : bindM _ _ = (_, Ok _) |- _ => bind_inv H
+  | a : (value * st)%type |- _ => destruct a
+  | H : eval P eps _ _ _ = (_, Ok (_, _)) |- _ => apply IH in H; [subst|assumption]
+  | H : OkM _ = (_, Ok _) |- _ => unfold OkM in H; inversion H; clear H; subst
+  | H : ErrM _ = (_, Ok _) |- _ => discriminate H
+  | H : PanicM _ = (_, Ok _) |- _ => discriminate H
+  | H : lift _ = (_, Ok _) |- _ => unfold lift in H
+  | H : (match ?x with _ => _ end) = (_, Ok _) |- _ => destruct x; try discriminate H
+  end.
+
+Lemma eval_pure : forall n e s o v s',
+  pure_expr e = true -> eval P eps n e s = (o, Ok (v, s')) -> s' = s.
+Proof.
+  induction n as [|n IH]; intros e s o v s' Hp H; [discriminate H|].
+  assert (Hev : forall es s o vs s', forallb pure_expr es = true ->
+                  evals P eps n es s = (o, Ok (vs, s')) -> s' = s).
+  { induction es as [|e0 es IHes]; intros s0 o0 vs s0' Hpe He;
+      [rewrite evals_nil in He|rewrite evals_cons in He].
+    - now inversion He.
+    - cbn [forallb] in Hpe. apply andb_true_iff in Hpe. destruct Hpe as [Hp0 Hpe].
+      bind_inv He. destruct a as [v0 s1]. bind_inv He. destruct a as [vs0 s2].
+      inversion He; subst. apply IH in Hm; [|exact Hp0]. subst s1.
+      eapply IHes; eauto. }
+  destruct e; cbn [pure_expr] in Hp; try discriminate Hp.
+  - cbn [eval] in H. now inversion H.
+  - cbn [eval] in H. now inversion H.
+  - cbn [eval] in H. bind_inv H. now inversion H.
+  - cbn [eval] in H. now inversion H.
+  - cbn [eval] in H. now inversion H.
+  - rewrite eval_var_S in H. destruct (lookup_env l n0 (env s)); [now inversion H|discriminate H].
+  - apply andb_true_iff in Hp. destruct Hp as [Hp1 Hp2].
+    destruct op; cbn [eval] in H; repeat pure_step IH; reflexivity.
+  - cbn [eval] in H. repeat pure_step IH; reflexivity.
+  - rewrite eval_arr_S in H. bind_inv H. destruct a as [vs s1]. inversion H; subst.
+    eapply Hev; eauto.
+  - apply andb_true_iff in Hp. destruct Hp as [Hp1 Hp2].
+    cbn [eval] in H. repeat pure_step IH; reflexivity.
+  - cbn [eval] in H. discriminate H.
+Qed.
+
+Lemma eval_indices_pure : forall n idx s o path s',
+  forallb pure_expr idx = true ->
+  eval_indices P eps n idx s = (o, Ok (path, s')) -> s' = s.
+Proof.
+  induction idx as [|e idx IH]; intros s o path s' Hp H;
+    [rewrite eval_indices_nil in H|rewrite eval_indices_cons in H].
+  - now inversion H.
+  - cbn [forallb] in Hp. apply andb_true_iff in Hp. destruct Hp as [Hp0 Hp].
+    bind_inv H. destruct a as [iv s1]. bind_inv H. bind_inv H. destruct a0 as [is s2].
+    inversion H; subst. apply eval_pure in Hm; [|exact Hp0]. subst s1. eapply IH; eauto.
+Qed.
+
+Lemma flatten_pure : forall t acc vn vl idx,
+  flatten_target t acc = Some (vn, vl, idx) -> pure_expr t = true ->
+  forallb pure_expr acc = true -> forallb pure_expr idx = true.
+Proof.
+  induction t; intros acc vn vl idx H Hp Hacc; cbn [flatten_target] in H; try discriminate H.
+  - inversion H; subst. exact Hacc.
+  - cbn [pure_expr] in Hp. apply andb_true_iff in Hp. destruct Hp as [Hp1 Hp2].
+    eapply IHt1; eauto. cbn [forallb]. now rewrite Hp2, Hacc.
+Qed.
+
+(* ---------- SSetIdx with call-free operands ---------- *)
+Lemma exec_setidx_frame : forall n sid t e s out fl s',
+  pure_expr t = true -> pure_expr e = true ->
+  exec P eps (S n) (SSetIdx sid t e) s = (out, Ok (fl, s')) ->
+  exists vn vl idx v path root root' o1 o2,
+    flatten_target t [] = Some (vn, vl, idx) /\
+    eval P eps n e s = (o1, Ok (v, s)) /\
+    eval_indices P eps n idx s = (o2, Ok (path, s)) /\ nonneg path /\
+    lookup_env vl vn (env s) = Some root /\
+    assign_path root path v = Ok root' /\
+    (* the base variable: exactly the addressed position is replaced *)
+    lookup_env vl vn (env s') = Some root' /\
+    get_path root' path = Some v /\
+    (forall q, indep path q -> get_path root' q = get_path root q) /\
+    (forall q, ~ prefix path q -> alen (get_path root' q) = alen (get_path root q)) /\
+    (* every other variable, in every scope and activation *)
+    (forall l' n', find_pos l' n' (env s) <> find_pos vl vn (env s) ->
+                   lookup_env l' n' (env s') = lookup_env l' n' (env s)) /\
+    shape (env s') = shape (env s) /\ fns s' = fns s /\ fl = FNormal.
+Proof.
+  intros n sid t e s out fl s' Hpt Hpe H.
+  apply exec_setidx_store in H.
+  destruct H as (v & s1 & o1 & vn & vl & idx & path & s2 & o2 & root & root' &
+                 Hev & Hft & Hei & Hnn & Hout & Hfl & Hst & Hap).
+  pose proof (eval_pure _ _ _ _ _ _ Hpe Hev) as Hs1. subst s1.
+  assert (Hpi : forallb pure_expr idx = true) by (eapply flatten_pure; eauto).
+  pose proof (eval_indices_pure _ _ _ _ _ _ Hpi Hei) as Hs2. subst s2.
+  destruct (store_frame _ _ _ _ _ _ Hst) as (Hnew & Hshape & Hfns & _ & Hoth & _).
+  destruct Hst as (Hl & _ & _).
+  exists vn, vl, idx, v, path, root, root', o1, o2.
+  refine (conj Hft (conj Hev (conj Hei (conj Hnn (conj Hl (conj Hap (conj Hnew
+          (conj _ (conj _ (conj _ (conj Hoth (conj Hshape (conj Hfns Hfl))))))))))))).
+  - eapply assign_path_get; eauto.
+  - eapply assign_path_frame; eauto.
+  - eapply assign_path_len; eauto.
+Qed.
+
+(* ---------- push / pop / reverse with call-free operands ---------- *)
+Lemma mutating_call_frame : forall n o f args t s out r s',
+  mem_name f array_mut_methods = true ->
+  pure_expr o = true -> forallb pure_expr args = true ->
+  eval P eps (S n) (ECall (EMember o f) args t) s = (out, Ok (r, s')) ->
+  exists op vn vl idx path root root' o2,
+    flatten_target o [] = Some (vn, vl, idx) /\
+    eval_indices P eps n idx s = (o2, Ok (path, s)) /\ nonneg path /\
+    ((f = n_push /\ exists a0 rest v o1, args = a0 :: rest /\ op = MPush v /\
+                     eval P eps n a0 s = (o1, Ok (v, s))) \/
+     (f = n_pop /\ op = MPop) \/ (f = n_reverse /\ op = MReverse)) /\
+    lookup_env vl vn (env s) = Some root /\
+    mutate_path root path op = Ok (root', r) /\
+    (* the base variable: exactly the addressed array is replaced by the list operation *)
+    lookup_env vl vn (env s') = Some root' /\
+    (exists items, get_path root path = Some (VArr items) /\
+       get_path root' path = Some (VArr (fst (apply_mutop op items))) /\
+       r = snd (apply_mutop op items)) /\
+    (forall q, indep path q -> get_path root' q = get_path root q) /\
+    (forall q, ~ prefix path q -> alen (get_path root' q) = alen (get_path root q)) /\
+    (* every other variable *)
+    (forall l' n', find_pos l' n' (env s) <> find_pos vl vn (env s) ->
+                   lookup_env l' n' (env s') = lookup_env l' n' (env s)) /\
+    shape (env s') = shape (env s) /\ fns s' = fns s.
+Proof.
+  intros n o f args t s out r s' Hf Hpo Hpa H.
+  apply mutating_call_store in H; [|exact Hf].
+  destruct H as (op & s1 & o1 & vn & vl & idx & path & s2 & o2 & root & root' &
+                 Hop & Hft & Hei & Hnn & Hout & Hst & Hmp).
+  assert (Hs1 : s1 = s /\
+     ((f = n_push /\ exists a0 rest v o1, args = a0 :: rest /\ op = MPush v /\
+                     eval P eps n a0 s = (o1, Ok (v, s))) \/
+      (f = n_pop /\ op = MPop) \/ (f = n_reverse /\ op = MReverse))).
+  { destruct Hop as [(-> & a0 & rest & v & -> & -> & Hev) | [(-> & -> & -> & _) | (-> & -> & -> & _)]].
+    - cbn [forallb] in Hpa. apply andb_true_iff in Hpa. destruct Hpa as [Hp0 _].
+      pose proof (eval_pure _ _ _ _ _ _ Hp0 Hev) as ->. split; [reflexivity|].
+      left. split; [reflexivity|]. exists a0, rest, v, o1. auto.
+    - auto.
+    - auto. }
+  destruct Hs1 as [-> Hop'].
+  assert (Hpi : forallb pure_expr idx = true) by (eapply flatten_pure; eauto).
+  pose proof (eval_indices_pure _ _ _ _ _ _ Hpi Hei) as Hs2. subst s2.
+  destruct (store_frame _ _ _ _ _ _ Hst) as (Hnew & Hshape & Hfns & _ & Hoth & _).
+  destruct Hst as (Hl & _ & _).
+  exists op, vn, vl, idx, path, root, root', o2.
+  refine (conj Hft (conj Hei (conj Hnn (conj Hop' (conj Hl (conj Hmp (conj Hnew
+          (conj _ (conj _ (conj _ (conj Hoth (conj Hshape Hfns)))))))))))).
+  - eapply mutate_path_target; eauto.
+  - eapply mutate_path_frame; eauto.
+  - eapply mutate_path_len; eauto.
+Qed.
+
+(* ================================================================== *)
+(* Part 4: copies                                                      *)
+(* ================================================================== *)
+
+(* any mutating statement with call-free operands: every variable other than its base
+   variable keeps its value, whatever scope or activation it lives in *)
+Lemma pure_mutation_frame : forall n t vn vl s o fl s',
+  mut_base t = Some (vn, vl) ->
+  exec P eps n t s = (o, Ok (fl, s')) ->
+  (forall l' n', find_pos l' n' (env s) <> find_pos vl vn (env s) ->
+                 lookup_env l' n' (env s') = lookup_env l' n' (env s)) /\
+  shape (env s') = shape (env s) /\ fns s' = fns s /\ fl = FNormal.
+Proof.
+  intros n t vn vl s o fl s' Hb H. destruct n as [|n]; [discriminate H|].
+  destruct t; try discriminate Hb; cbn [mut_base] in Hb.
+  - (* SSetIdx *)
+    destruct (pure_expr target && pure_expr e) eqn:Hp; [|discriminate Hb].
+    apply andb_true_iff in Hp. destruct Hp as [Hpt Hpe].
+    apply exec_setidx_frame in H; [|exact Hpt|exact Hpe].
+    destruct H as (vn' & vl' & idx & v & path & root & root' & o1 & o2 & Hft & _ & _ & _ & _ & _ &
+                   _ & _ & _ & _ & Hoth & Hshape & Hfns & Hfl).
+    unfold target_var in Hb. rewrite Hft in Hb. inversion Hb; subst. auto.
+  - (* SExpr (ECall (EMember o f) args _) *)
+    destruct e; try discriminate Hb. destruct e; try discriminate Hb.
+    destruct (mem_name f array_mut_methods && pure_expr e && forallb pure_expr args) eqn:Hp;
+      [|discriminate Hb].
+    apply andb_true_iff in Hp. destruct Hp as [Hp Hpa].
+    apply andb_true_iff in Hp. destruct Hp as [Hf Hpo].
+    rewrite exec_expr_S in H. bind_inv H. destruct a as [r s1]. inversion H; subst.
+    destruct n as [|n]; [discriminate Hm|].
+    apply mutating_call_frame in Hm; [|exact Hf|exact Hpo|exact Hpa].
+    destruct Hm as (op & vn' & vl' & idx & path & root & root' & o2 & Hft & _ & _ & _ & _ & _ &
+                    _ & _ & _ & _ & Hoth & Hshape & Hfns).
+    unfold target_var in Hb. rewrite Hft in Hb. inversion Hb; subst. auto.
+Qed.
+
+(* a whole history of such mutations through other variables *)
+Lemma steps_frame : forall s ts s' lb b,
+  steps P eps s ts s' ->
+  (forall t, In t ts -> exists vn vl, mut_base t = Some (vn, vl) /\
+                          find_pos vl vn (env s) <> find_pos lb b (env s)) ->
+  lookup_env lb b (env s') = lookup_env lb b (env s) /\ shape (env s') = shape (env s).
+Proof.
+  intros s ts s' lb b Hst. induction Hst as [s|n t ts s o s1 s2 Hex Hst IH]; intros Hall; [auto|].
+  destruct (Hall t (or_introl eq_refl)) as (vn & vl & Hb & Hne).
+  destruct (pure_mutation_frame _ _ _ _ _ _ _ _ Hb Hex) as (Hoth & Hshape & _ & _).
+  destruct IH as [IHl IHs].
+  - intros t' Hin. destruct (Hall t' (or_intror Hin)) as (vn' & vl' & Hb' & Hne').
+    exists vn', vl'. split; [exact Hb'|].
+    now rewrite !(find_pos_shape _ _ _ _ Hshape).
+  - rewrite IHl, IHs. split; [|exact Hshape]. apply Hoth. intros Hc. apply Hne. now rewrite Hc.
+Qed.
+
+(* `make b get a`: b is bound to a's value, a keeps it, and from then on mutations through
+   one of the two are invisible through the other *)
+Lemma copy_is_value : forall n sid b lb a la s o fl s1,
+  exec P eps (S n) (SMake sid b lb (EVar a la)) s = (o, Ok (fl, s1)) ->
+  exists va,
+    lookup_env la a (env s) = Some va /\
+    lookup_env lb b (env s1) = Some va /\
+    (find_pos la a (env s1) <> find_pos lb b (env s1) ->
+       lookup_env la a (env s1) = Some va /\
+       (* histories of call-free mutations through a (or through anything but b) ... *)
+       (forall ts s2, steps P eps s1 ts s2 ->
+          (forall t, In t ts -> exists vn vl, mut_base t = Some (vn, vl) /\
+                                find_pos vl vn (env s1) <> find_pos lb b (env s1)) ->
+          lookup_env lb b (env s2) = Some va) /\
+       (* ... and through b (or through anything but a) *)
+       (forall ts s2, steps P eps s1 ts s2 ->
+          (forall t, In t ts -> exists vn vl, mut_base t = Some (vn, vl) /\
+                                find_pos vl vn (env s1) <> find_pos la a (env s1)) ->
+          lookup_env la a (env s2) = Some va)).
+Proof.
+  intros n sid b lb a la s o fl s1 H. rewrite exec_make_S in H.
+  destruct n as [|n]; [discriminate H|].
+  bind_inv H. destruct a0 as [v s0]. rewrite eval_var_S in Hm.
+  destruct (lookup_env la a (env s)) as [va|] eqn:Hla; [|discriminate Hm].
+  inversion Hm; subst. inversion H; subst. cbn [with_env env].
+  exists v. split; [reflexivity|].
+  destruct (env s0) as [|sc r] eqn:He.
+  - cbn [lookup_env] in Hla. discriminate Hla.
+  - destruct (define_env_frame lb b v sc r) as (Hnew & _ & Hoth).
+    split; [exact Hnew|]. intros Hne.
+    assert (Hlav : lookup_env la a (define_env lb b v (sc :: r)) = Some v)
+      by (rewrite Hoth by exact Hne; exact Hla).
+    refine (conj Hlav (conj _ _)); intros ts s2 Hst Hall.
+    + destruct (steps_frame _ _ _ lb b Hst) as [Hl _]; [exact Hall|].
+      cbn [with_env env] in Hl. now rewrite Hl.
+    + destruct (steps_frame _ _ _ la a Hst) as [Hl _]; [exact Hall|].
+      cbn [with_env env] in Hl. now rewrite Hl.
+Qed.
+
+(* storing a variable into an array literal, passing it, returning it: the value itself
+   is what travels; the source variable is not touched *)
+Lemma read_var_is_value : forall n a la s o v s',
+  eval P eps (S n) (EVar a la) s = (o, Ok (v, s')) ->
+  lookup_env la a (env s) = Some v /\ s' = s /\ o = [].
+Proof.
+  intros n a la s o v s' H. rewrite eval_var_S in H.
+  destruct (lookup_env la a (env s)); [|discriminate H]. now inversion H.
+Qed.
+
+Lemma array_literal_holds_values : forall n es s o v s',
+  forallb pure_expr es = true ->
+  eval P eps (S n) (EArr es) s = (o, Ok (v, s')) ->
+  s' = s /\ exists vs o', v = VArr vs /\ evals P eps n es s = (o', Ok (vs, s)).
+Proof.
+  intros n es s o v s' Hp H. pose proof H as H0.
+  apply eval_pure in H0; [|exact Hp]. subst s'. split; [reflexivity|].
+  rewrite eval_arr_S in H. bind_inv H. destruct a as [vs s1]. inversion H; subst.
+  exists vs, o0. auto.
+Qed.
+
+End Steps.
+
+(* ================================================================== *)
+(* Combined statements (used by Properties/C05.v)                      *)
+(* ================================================================== *)
+
+Lemma assign_path_spec : forall p v nv v',
+  nonneg p -> assign_path v p nv = Ok v' ->
+  get_path v' p = Some nv /\
+  (forall q, indep p q -> get_path v' q = get_path v q) /\
+  (forall q, ~ prefix p q -> alen (get_path v' q) = alen (get_path v q)).
+Proof.
+  intros p v nv v' Hnn H. refine (conj _ (conj _ _)).
+  - eapply assign_path_get; eauto.
+  - eapply assign_path_frame; eauto.
+  - eapply assign_path_len; eauto.
+Qed.
+
+Lemma assign_path_errors : forall p v nv,
+  nonneg p ->
+  (forall e, assign_path v p nv = Err e <-> fault_at v p e) /\
+  ((exists v', assign_path v p nv = Ok v') <-> (p <> [] /\ forall e, ~ fault_at v p e)) /\
+  ((exists v', assign_path v p nv = Ok v') \/ assign_path v p nv = Err InvIdx \/
+   assign_path v p nv = Err IdxOob \/ (p = [] /\ assign_path v p nv = Panic PIdxAssignEnd)).
+Proof.
+  intros p v nv Hnn. refine (conj _ (conj _ _)).
+  - intros e. now apply assign_path_err_iff.
+  - now apply assign_path_ok_iff.
+  - apply assign_path_total.
+Qed.
+
+Lemma mutate_path_spec : forall p v op v' r,
+  nonneg p -> mutate_path v p op = Ok (v', r) ->
+  (exists items, get_path v p = Some (VArr items) /\
+     get_path v' p = Some (VArr (fst (apply_mutop op items))) /\
+     r = snd (apply_mutop op items)) /\
+  (forall q, indep p q -> get_path v' q = get_path v q) /\
+  (forall q, ~ prefix p q -> alen (get_path v' q) = alen (get_path v q)).
+Proof.
+  intros p v op v' r Hnn H. refine (conj _ (conj _ _)).
+  - eapply mutate_path_target; eauto.
+  - eapply mutate_path_frame; eauto.
+  - eapply mutate_path_len; eauto.
+Qed.
+
+Lemma mutate_path_errors : forall p v op,
+  nonneg p ->
+  (forall e, mutate_path v p op = Err e ->
+     fault_at v p e \/ (e = TypeMis /\ exists x, get_path v p = Some x /\
+                                         match x with VArr _ => False | _ => True end)) /\
+  ((exists v' r, mutate_path v p op = Ok (v', r)) \/
+   (exists e, mutate_path v p op = Err e /\ (e = InvIdx \/ e = IdxOob \/ e = TypeMis))).
+Proof.
+  intros p v op Hnn. split.
+  - intros e. now apply mutate_path_err_fault.
+  - apply mutate_path_total.
+Qed.
+
+Lemma list_ops_spec :
+  (forall x items, apply_mutop (MPush x) items = (items ++ [x], VNull)) /\
+  apply_mutop MPop [] = ([], VNull) /\
+  (forall items x, apply_mutop MPop (items ++ [x]) = (items, x)) /\
+  (forall items, apply_mutop MReverse items = (rev items, VNull)).
+Proof.
+  refine (conj apply_push (conj apply_pop_empty (conj apply_pop_snoc apply_reverse))).
+Qed.
+
+Lemma index_values_nonneg : forall P eps n idx s o path s',
+  eval_indices P eps n idx s = (o, Ok (path, s')) -> nonneg path.
+Proof. exact eval_indices_nonneg. Qed.
